@@ -1822,6 +1822,45 @@ func TestVerifConc(t *testing.T) {
 				out.Emit(verifkit.M{"ev": "atomic", "sid": sid, "scenario": "a post whose author answers after the configured timeout", "what": "authors of the post when the page first shows it", "expected": 1, "observed": authors})
 			}
 		}
+		if sid%3 == 0 {
+			/* a command typed inside the interface while the poller reports sizes: every key returns, and so does the poller */
+			cc := &verifConc{verifSession: verifNewSession(w, out, sid, false)}
+			cc.s = NewState(80, 24, cc.callback)
+			if err := cc.s.Subcommand("open", w.h.URL(w.startP)); err == nil && cc.settle(8*time.Second) {
+				typed := []byte(":open " + w.h.URL(w.startA) + "\rj:feed f\rk")
+				issued, returned := 0, int32(0)
+				stop := make(chan struct{})
+				go func() {
+					for k := 0; ; k++ {
+						select {
+						case <-stop:
+							return
+						default:
+							cc.s.SetWidthHeight(70+k%7, 20+k%5)
+							time.Sleep(2 * time.Millisecond)
+						}
+					}
+				}()
+				for _, b := range typed {
+					issued++
+					done := make(chan struct{})
+					b := b
+					go func() { cc.s.Update(b); atomic.AddInt32(&returned, 1); close(done) }()
+					select {
+					case <-done:
+					case <-time.After(4 * time.Second):
+					}
+					if b == '\r' {
+						cc.settle(8 * time.Second)
+					}
+					if atomic.LoadInt32(&returned) < int32(issued) {
+						break
+					}
+				}
+				close(stop)
+				out.Emit(verifkit.M{"ev": "liveness", "sid": sid, "scenario": "commands typed inside the interface while sizes are reported", "issued": issued, "returned": atomic.LoadInt32(&returned)})
+			}
+		}
 		if sid%3 == 2 {
 			/* keys and a resize while the media program is running (a player may run for minutes): they are handled
 			   while it runs, not after it has exited */
